@@ -108,6 +108,10 @@ def configs(tier, seed):
     return [{"shape": s} for s in shapes(tier)]
 
 
+class _Stop(Exception):
+    """an obligation has failed and the program cannot go on"""
+
+
 def harness_for(cfg):
     shape = cfg["shape"]
 
@@ -118,7 +122,11 @@ def harness_for(cfg):
 
         def build(spec):
             """Returns (map, [(res, s, e, width, path)]) in the coordinates of this map."""
-            mm = MemoryMap(addr_width=spec["aw"], data_width=spec["dw"], alignment=spec["al"])
+            try:
+                mm = MemoryMap(addr_width=spec["aw"], data_width=spec["dw"], alignment=spec["al"])
+            except (ValueError, TypeError):
+                E.prove(False, "a legal map geometry (positive widths, non-negative alignment) is refused")
+                raise _Stop()
             local = []
             top = 1 << spec["aw"]
 
@@ -196,7 +204,10 @@ def harness_for(cfg):
                     poke()
             return mm, local
 
-        root, oracle = build(shape)
+        try:
+            root, oracle = build(shape)
+        except _Stop:
+            return
         # the root's sub-maps may also be mapped into another, unrelated root (a second bus master's view):
         # that must not disturb this root
         other = MemoryMap(addr_width=shape["aw"] + 2, data_width=shape["dw"])
